@@ -558,7 +558,14 @@ func wiringOne(ws wiringSession, rec *predRec) {
 		return
 	}
 	for pg := 1; pg <= p; pg++ {
-		page := frame.NewFrame(v, q.Header.StreamId, &message.RowsResult{Metadata: &message.RowsMetadata{ColumnCount: 0, ContinuousPageNumber: int32(pg), LastContinuousPage: pg == p}})
+		meta := &message.RowsMetadata{ColumnCount: 0, ContinuousPageNumber: int32(pg), LastContinuousPage: pg == p}
+		if pg%2 == 0 {
+			meta.NewResultMetadataId = []byte{1, 2, 3, byte(pg)} // a page may announce changed result metadata (DSE v2)
+		}
+		if pg%3 == 0 {
+			meta.PagingState = []byte{0xca, byte(pg)}
+		}
+		page := frame.NewFrame(v, q.Header.StreamId, &message.RowsResult{Metadata: meta, Data: message.RowSet{}})
 		if err := sc.Send(page); err != nil {
 			fail("harness", "peer send page: "+err.Error())
 		}
